@@ -209,6 +209,8 @@ MUTANTS = [
     M("benign-c03-winner-len-iter", ["C03", "C11", "C08"], (SD, WL_OLD, "        self.players.iter().filter(|player| player.win).count() as u8\n"), benign=True),
     M("c03-winner-len-iter-skip", ["C03"], (SD, WL_OLD, "        self.players.iter().skip(1).filter(|player| player.win).count() as u8\n")),
     M("benign-c08-any-fn-item", ["C08"], (FE, "if self.player_entries.iter().any(|entry| entry.is_empty()) {", "if self.player_entries.iter().any(Vec::is_empty) {"), benign=True),
+    M("benign-parser-merged-return", ["C05", "C06", "C09", "C10"], (TK, '                if &s[2..3] == "s" {\n                    return Ok(HandRangeToken::new(\n                        HandRangeTokenKind::SingleRankPair(RankPair::Suited(high, kicker)),\n                        parse_probability(&s[3..]),\n                    ));\n                }\n\n                return Ok(HandRangeToken::new(\n                    HandRangeTokenKind::SingleRankPair(RankPair::Ofsuit(high, kicker)),\n                    parse_probability(&s[3..]),\n                ));\n', '                let pair = if &s[2..3] == "s" {\n                    RankPair::Suited(high, kicker)\n                } else {\n                    RankPair::Ofsuit(high, kicker)\n                };\n\n                return Ok(HandRangeToken::new(\n                    HandRangeTokenKind::SingleRankPair(pair),\n                    parse_probability(&s[3..]),\n                ));\n'), benign=True),
+    M("c05-merged-return-swapped", ["C05"], (TK, '                if &s[2..3] == "s" {\n                    return Ok(HandRangeToken::new(\n                        HandRangeTokenKind::SingleRankPair(RankPair::Suited(high, kicker)),\n                        parse_probability(&s[3..]),\n                    ));\n                }\n\n                return Ok(HandRangeToken::new(\n                    HandRangeTokenKind::SingleRankPair(RankPair::Ofsuit(high, kicker)),\n                    parse_probability(&s[3..]),\n                ));\n', '                let pair = if &s[2..3] == "o" {\n                    RankPair::Suited(high, kicker)\n                } else {\n                    RankPair::Ofsuit(high, kicker)\n                };\n\n                return Ok(HandRangeToken::new(\n                    HandRangeTokenKind::SingleRankPair(pair),\n                    parse_probability(&s[3..]),\n                ));\n')),
     M("c08-recursion", ["C08"], (FE, """        loop {
             if let Some(showdown) = self.next_deal()? {
                 return Some(showdown);
